@@ -11,6 +11,9 @@ REAL_VS_STUB = {
     "rewritten_in_the_simulated_build": [
         "taskctl's own sync.Mutex / sync.RWMutex / sync.Once -> channel-based equivalents (sim/vsync), so that lock waits are durable blocks in the synctest bubble",
         "pkg/scheduler: `range g.Nodes()` -> seeded visiting order (hook verifNodes) with inactive yield points at every visit",
+        "every top-level function of pkg/* and internal/*: a preemption point at its entry (inactive unless the controller armed it for the goroutine it just released)",
+        "cmd/taskctl: `<-cancel` of the cancel listener goroutines -> a wait point: after abort() the controller decides when and in which order they act",
+        "github.com/briandowns/spinner (cockpit format): replaced by a copy whose sync.RWMutex is the channel-based lock and whose function entries are preemption points; its goroutine runs when the fake clock reaches its next frame",
     ],
     "stubs": [
         "external process execution: interp.ExecHandler replaced by the simulated process layer (exit status, output chunks, stall, interrupt behaviour chosen by the controller)",
@@ -30,7 +33,7 @@ PROPS = {
     "C01": {
         "level": "exploration",
         "parts": [{"engine": "sched", "profile": "c01", "weight": 4}, {"engine": "integ", "profile": "c06", "weight": 1}, {"engine": "fault", "profile": "c13", "weight": 1}],
-        "rule": "worlds: every DAG shape on 1..4 stages by index (x declaration order, outcomes, allow_failure, conditions, nested pipeline drawn per world), random DAGs beyond; each world under 4 seeded schedules (which parked stage goroutine / Run call proceeds next, passes in between). distinct = canonical event-log hash (timestamps removed, events of one quiescence sorted); non-trivial = at least two stage tasks in flight together at some point. INTEG part (real TaskRunner over simulated processes, the C06 pipeline worlds): no command of a stage starts before every command of each dependency has ended; also in the C13 timeout worlds (dependant of a task whose command overruns its timeout and ignores the interrupt until killed)",
+        "rule": "worlds: every DAG shape on 1..4 stages by index (x declaration order, outcomes, allow_failure, conditions, nested pipeline drawn per world), random DAGs beyond (a nested pipeline reuses the stage names of the pipeline around it in a third of the cases; every 16th world has 8..12 stages that each nest a pipeline, every 16th one pipeline nested by two stages with likely failures inside); each world under 4 seeded schedules (which parked stage goroutine / Run call proceeds next, passes in between). distinct = canonical event-log hash (timestamps removed, events of one quiescence sorted); non-trivial = at least two stage tasks in flight together at some point. INTEG part (real TaskRunner over simulated processes, the C06 pipeline worlds): no command of a stage starts before every command of each dependency has ended; also in the C13 timeout worlds (dependant of a task whose command overruns its timeout and ignores the interrupt until killed)",
         "assumptions": _SCHED_ASSUME,
     },
     "C02": {
@@ -79,38 +82,38 @@ PROPS.update({
     "C11": {
         "level": "exploration",
         "parts": [{"engine": "integ", "profile": "c11", "weight": 1}],
-        "rule": "producers with several commands/variations writing seeded byte strings (empty, multi-line, CRLF, unicode, quoting hazards, up to 64 KiB) in seeded chunkings, some stderr chunks interleaved; task names over a printable-ASCII alphabet (mangled names kept distinct), with/without exportAs; consumers at seeded DAG positions; {{.Output}} chaining with shell-safe words. Oracle: Task.Output() byte-exact; every exec of a direct dependant sees <NAME>_OUTPUT / exportAs == producer stdout; chained command argv == previous command's output. distinct = canonical event-log hash; non-trivial as C06",
+        "rule": "producers with several commands/variations writing seeded byte strings (empty, multi-line, CRLF, unicode, quoting hazards, up to 64 KiB) in seeded chunkings, some stderr chunks interleaved, 12% of the tasks declared interactive; task names over a printable-ASCII alphabet (mangled names kept distinct), with/without exportAs; consumers at seeded DAG positions; {{.Output}} chaining with shell-safe words. Oracle: Task.Output() byte-exact; every exec of a direct dependant sees <NAME>_OUTPUT / exportAs == producer stdout; chained command argv == previous command's output. distinct = canonical event-log hash; non-trivial as C06",
         "assumptions": _INTEG_ASSUME,
     },
     "C12": {
         "level": "fault_enumeration",
         "parts": [{"engine": "fault", "profile": "c12", "weight": 3}, {"engine": "sched", "profile": "c12s", "weight": 1}, {"engine": "cli", "profile": "cli12", "weight": 1}],
-        "rule": "for each sampled world (1..4 parallel tasks + 0..3 waiting stages, hooks, conditions, contexts, processes that die at once or ignore the interrupt until killed) and its base schedule, Cancel is injected at EVERY controller step index 0..23 (index mod 24; beyond the end of the run = after everything returned), via TaskRunner.Cancel or Scheduler.Cancel, optionally a second Cancel, or from a stage-condition error; SCHED part: same enumeration (16 positions) against the stub Runner; CLI part: abort() - what the signal handler calls - at every step of command-line runs of 1..4 targets (the application's own cancel goroutines drive TaskRunner.Cancel and Scheduler.Cancel): the invocation returns, running commands are interrupted, an interrupted invocation returns an error. distinct = canonical event-log hash; all runs are non-trivial (a fault fires in each)",
+        "rule": "for each sampled world (1..4 parallel tasks + 0..3 waiting stages, hooks, conditions, contexts, processes that die at once or ignore the interrupt until killed) and its base schedule, Cancel is injected at EVERY controller step index 0..23 (index mod 24; beyond the end of the run = after everything returned), via TaskRunner.Cancel or Scheduler.Cancel, optionally a second Cancel, or from a stage-condition error (also in the middle of the run: a nested pipeline whose stage condition cannot be evaluated is started while 1..3 stages outside and 0..2 inside it have long commands in flight - every sixth world); SCHED part: same enumeration (16 positions) against the stub Runner; CLI part: abort() - what the signal handler calls - at every step of command-line runs of 1..4 targets (the application's own cancel goroutines drive TaskRunner.Cancel and Scheduler.Cancel; when and in which order they act after abort() is a seeded choice): the invocation returns, running commands are interrupted, an interrupted invocation returns an error. distinct = canonical event-log hash; all runs are non-trivial (a fault fires in each)",
         "assumptions": _INTEG_ASSUME + ["condition and context service commands run under context.Background() by design and are exempt from 'terminates the commands that are running'"],
     },
     "C08": {
         "level": "exploration",
         "parts": [{"engine": "fault", "profile": "c08", "weight": 1}],
-        "rule": "worlds: a configuration file (written per run, loaded by the real config loader) with one shared task (1..3 env names, 1..3 variables used as argv, optional dir) and 2..4 (thorough 6) stages overriding random subsets of env/variables/dir, arranged parallel / chained / mixed, optionally a second pipeline and a direct run of the task in the same process, drivers run in sequence. Schedule space: order in which stage goroutines parked at goroutine start and at Run entry proceed, and process completion order. Oracle at every exec: each namespaced env name, variable (argv) and dir == this stage's override, else the task's own value; a leaking value is attributed to the stage it came from. distinct = canonical event-log hash; all runs non-trivial (every world has >=2 users of the task)",
+        "rule": "worlds: a configuration file (written per run, loaded by the real config loader) with one shared task (1..3 env names, 1..3 variables used as argv, optional dir) and 2..4 (thorough 6) stages overriding random subsets of env/variables/dir, arranged parallel / chained / mixed, optionally a second pipeline and a direct run of the task in the same process, drivers run in sequence; in a third of the worlds the task has before/after hooks (also using the shell idiom NAME=${NAME:-x}) that must see the stage's values too. Schedule space: order in which stage goroutines parked at goroutine start and at Run entry proceed, and process completion order. Oracle at every exec: each namespaced env name, variable (argv) and dir == this stage's override, else the task's own value; a leaking value is attributed to the stage it came from. distinct = canonical event-log hash; all runs non-trivial (every world has >=2 users of the task)",
         "assumptions": _INTEG_ASSUME + ["names live in a namespace no other level defines, so no other layering rule is involved", "execs are attributed to stages by goroutine id"],
     },
     "C19": {
         "level": "exploration",
         "cross_outcome": True,
         "parts": [{"engine": "fault", "profile": "c19", "weight": 1}],
-        "rule": "worlds: 1..5 (thorough 8) tasks, each one simulated process writing a seeded stream (lines of 0..10000 bytes, LF / CRLF / lone CR, well-formed CSI sequences, unicode, digits and brackets next to sequences, unterminated tail) cut into write calls at seeded points (also inside CRLF, a CSI sequence or a rune), a share of chunks on stderr; chunk writes of different tasks interleaved one at a time by the controller; task outcomes success / failure / skipped / failing before-hook; every world is run under raw, prefixed and cockpit (index mod 3). Oracles: raw sink == chunks in delivery order; prefixed: every sink write is one whole line carrying the name of the task whose chunk is being delivered, per-task payload == stream after removing terminators and CSI sequences; result fields equal across the three formats; no crash. distinct = canonical event-log hash; all runs non-trivial",
-        "assumptions": _INTEG_ASSUME + ["hooks print nothing in these worlds (their output bypasses the decorator by design)", "races inside briandowns/spinner are out of reach (its goroutine only runs between controller steps)"],
+        "rule": "worlds: 1..5 (thorough 8) tasks, each one simulated process writing a seeded stream (lines of 0..10000 bytes, LF / CRLF / lone CR, well-formed CSI sequences, unicode, digits and brackets next to sequences, unterminated tail, also ending inside an escape introducer that never completes) cut into write calls at seeded points (also inside CRLF, a CSI sequence or a rune), a share of chunks on stderr; chunk writes of different tasks interleaved one at a time by the controller; task outcomes success / failure / skipped / failing before-hook; every world is run under raw, prefixed and cockpit (index mod 3); a third of the worlds preempt goroutines at function entries of taskctl and of the spinner (cockpit: 40% of releases, within 80 entries). Oracles: the run returns (a lock cycle between cockpit and spinner is a deadlock: rule=deadlock, with the waiting goroutines' call chains); raw sink == chunks in delivery order; prefixed: every sink write is one whole line carrying the name of the task whose chunk is being delivered, per-task payload == stream after removing terminators and CSI sequences; result fields equal across the three formats; no crash. distinct = canonical event-log hash; all runs non-trivial",
+        "assumptions": _INTEG_ASSUME + ["hooks print nothing in these worlds (their output bypasses the decorator by design)", "briandowns/spinner (cockpit format) takes part in the simulation with its lock rewritten and its function entries as preemption points; its goroutine runs when the fake clock reaches its next frame; data races on its unsynchronised fields are out of reach"],
     },
     "C20": {
         "level": "exploration",
         "parts": [{"engine": "watch", "profile": "c20", "weight": 1}],
-        "rule": "worlds: a real temporary tree (<=4 directories on 3 levels, <=10 files), 1..3 include and 0..2 exclude patterns from the grammar (literal, *, ?, ** as a whole segment), a subset of the five event names (or none = all), built by the real watch.NewWatcher; a history of 1..4 (thorough 6) injected fsnotify events (create/write/remove/rename/chmod, also combined and zero ops as noise) on observed paths or children of observed directories, a quarter of them arriving while the previously triggered run is still executing; fake 1 s poll. Oracles: selected path set == reference matcher (set-up invariant, pure part); per event: the task ran exactly once more with EventName/EventPath of that event iff its type is subscribed; every event is taken from the channel (keeps serving); initial run once. distinct = canonical event-log hash; non-trivial = world with >=1 observed path and >=1 event",
+        "rule": "worlds: a real temporary tree (<=4 directories on 3 levels, <=10 files), 1..3 include and 0..2 exclude patterns from the grammar (literal, *, ?, ** as a whole segment), a subset of the five event names (or none = all), built by the real watch.NewWatcher; a history of 1..4 (thorough 6) injected fsnotify events (create/write/remove/rename/chmod, also combined and zero ops as noise) on observed paths or children of observed directories, a quarter of them arriving while the previously triggered run is still executing; fake 1 s poll. Oracles: selected path set == reference matcher (set-up invariant, pure part); per event: the task ran exactly once more with EventName/EventPath of that event iff its type is subscribed; every event is taken from the channel (keeps serving); initial run once; in a third of the runs a second watcher (same patterns, own task) is started on the same TaskRunner after the first was closed: it runs its task once and serves a subscribed event. distinct = canonical event-log hash; non-trivial = world with >=1 observed path and >=1 event",
         "assumptions": ["inotify and fsnotify's reader are not exercised: events are injected into the channel the watcher polls", "events are only injected for observed paths (the kernel would not deliver others)", "combined / zero ops are injected but not constrained (the statement does not say which type they are)", "sampling, not proof"],
     },
     "C14": {
         "level": "exploration",
         "parts": [{"engine": "fault", "profile": "c14", "weight": 3}, {"engine": "cli", "profile": "cli", "weight": 2}, {"engine": "fault", "profile": "c12", "weight": 1}],
-        "rule": "worlds: 1..3 contexts with 0..2 up/down/before/after service commands (up fails with p=0.1 per command), 1..5 (thorough 8) tasks spread over them with/without before/after/condition/allow_failure and failing commands, started simultaneously, one after another, or as parallel/chained stages; Finish called once or twice; CLI part: the CLI worlds of C07 with 0..2 contexts (down exactly once at shutdown, after all tasks of all targets, for used contexts, whether the targets succeeded or failed). Schedule space: which goroutine parked at Run entry / Up entry / inside a command proceeds next, including releasing further tasks into Up() while `up` is still running (limbo fast-forward). distinct = canonical event-log hash; all runs non-trivial",
+        "rule": "worlds: 1..3 contexts with 0..2 up/down/before/after service commands (up fails with p=0.1, down with p=0.2 per command), 1..5 (thorough 8) tasks spread over them with/without before/after/condition/allow_failure and failing commands, started simultaneously, one after another, or as parallel/chained stages; Finish called once or twice; CLI part: the CLI worlds of C07 with 0..2 contexts (down exactly once at shutdown, after all tasks of all targets, for used contexts, whether the targets succeeded or failed). Schedule space: which goroutine parked at Run entry / Up entry / inside a command proceeds next, including releasing further tasks into Up() while `up` is still running (limbo fast-forward). distinct = canonical event-log hash; all runs non-trivial",
         "assumptions": _INTEG_ASSUME + ["a skipped task may have zero or one before/after hook block; a context whose up failed may or may not get its down commands (statement silent)", "context hook commands are attributed to task executions by goroutine id"],
     },
     "C13": {
